@@ -822,6 +822,10 @@ ExitStatus Builder::Build(string* err) {
         bool command_finished = FinishCommand(cc, err);
         SetFailureCode(result.exit_status());
         if (!command_finished) {
+          // The command itself has ended, whatever went wrong afterwards, and
+          // is no longer known to the command runner: return its job slot.
+          if (jobserver_.get())
+            jobserver_->Release(std::move(cc.edge->job_slot_));
           Cleanup();
           status_->BuildFinished();
           if (result.success()) {
